@@ -617,4 +617,18 @@ def programsR (G : TT S T) (fuel : Nat) : Option Nat :=
 
 end ProgramsR
 
+/-! ## product of two grammar objects (ttcfg.py:98-141 as it is now: `clean()` with the test for a
+     missing start symbol, `grammar.type_request = self.type_request`, 26a6c4e) -/
+section MulG
+variable {S T U V : Type} [DecidableEq S] [DecidableEq T] [DecidableEq U] [DecidableEq V]
+
+/-- `g1 * g2` (the assertion `self.type_request == other.type_request` is a precondition) -/
+def mulTTG (g1 : TTG S T) (g2 : TTG U V) (fuel : Nat) : Res (TTG (S × U) (T × V)) :=
+  match cleanFixed (mulRaw g1.G g2.G) fuel with
+  | .ok G => .ok ⟨G, g1.typeRequest⟩
+  | .fuel => .fuel
+  | .keyError => .keyError
+
+end MulG
+
 end PS.T
